@@ -92,11 +92,29 @@ impl PrettyPrint for MechSet {
   }
 }
 
+// Equal sets must hash alike whatever their insertion order (IndexSet == is
+// order-insensitive): combine per-element hashes with a commutative operation.
+struct SetElementHasher(u64);
+impl Hasher for SetElementHasher {
+  fn finish(&self) -> u64 { self.0 }
+  fn write(&mut self, bytes: &[u8]) {
+    for b in bytes {
+      self.0 ^= *b as u64;
+      self.0 = self.0.wrapping_mul(0x100000001b3);
+    }
+  }
+}
+
 impl Hash for MechSet {
   fn hash<H: Hasher>(&self, state: &mut H) {
+    let mut acc: u64 = 0;
     for x in self.set.iter() {
-      x.hash(state)
+      let mut h = SetElementHasher(0xcbf29ce484222325);
+      x.hash(&mut h);
+      acc = acc.wrapping_add(h.finish());
     }
+    state.write_usize(self.set.len());
+    state.write_u64(acc);
   }
 }
 
